@@ -1,40 +1,60 @@
 (* model / spec driver for component ServerWrite (C13).
-   The Coq model has micro-steps (Write, Dispatch, CloseSweep, ...).  This driver composes them the
-   way the harness drives the real Server: one `ev`/`poll`/`tick` line is one Server::run() call =
-   closing-clients pass ; at most one poll event ; closing-clients pass.  An operation queued with
-   `react <callback> <op>` is executed when that callback is delivered, i.e. directly after the
-   micro-step that emitted it (every callback of the modelled code is in tail position). *)
+   The Coq model has micro-steps (Write, Dispatch, CloseSweep, ... ; for two clients On c x, Collect,
+   Deliver, Sweep).  This driver composes them the way the harness drives the real Server: one
+   `ev`/`evs`/`poll`/`tick` line is one Server::run() call.
+     one client (default):  closing-clients pass ; at most one poll event ; closing-clients pass
+     two clients (case config `two`):  loop { closing-clients pass ; poll() : when no collected event
+       is left, ask the kernel - the first time it reports the scripted round, the second time the
+       interrupt, which ends the run ; dispatch the oldest collected event - an event that has lost
+       all its flags is handled by run() like a timeout and, the interrupt flag being set, ends the run }
+   An operation queued with `react <callback> <op>` is executed when that callback is delivered, i.e.
+   directly after the micro-step that emitted it (every callback of the modelled code is in tail
+   position). *)
 open Model
 open Zconv
-
-type machine = {
-  step : op -> out option;          (* None: the spec makes no claim *)
-  state : unit -> string;           (* the ' | ...' sections *)
-  rest : unit -> z list option;     (* what the peer has been sent and has not reported yet *)
-}
 
 let parse_outcome s = match s with
   | "wb" -> WouldBlock | "full" -> Full | "zero" -> Zero | "err" -> Error
   | _ when String.length s > 1 && s.[0] = 's' -> Sent (z_of_int (int_of_string (String.sub s 1 (String.length s - 1))))
   | _ -> failwith ("bad outcome " ^ s)
 
-let parse_mask s = { nin = String.contains s 'i'; nout = String.contains s 'o'; nhup = String.contains s 'h' }
+let parse_mask s = { nin = String.contains s 'i'; nout = String.contains s 'o'; nhup = String.contains s 'h';
+                     nrdhup = String.contains s 'd'; nerr = String.contains s 'e' }
 
 let cb_name c = match c with OnRead -> "onRead" | OnWrite -> "onWrite" | OnClosed -> "onClosed"
 let cb_index c = match c with OnRead -> 0 | OnWrite -> 1 | OnClosed -> 2
 
-(* accumulated view of one op line *)
-type acc = { mutable ret : string; mutable num : string; mutable cbs : string list; mutable tx : z list;
-             mutable sends : string list; mutable data : z list; mutable dead : bool; mutable unspec : bool }
-let new_acc () = { ret = "-"; num = "-"; cbs = []; tx = []; sends = []; data = []; dead = false; unspec = false }
+(* a micro operation of either machine *)
+type mop =
+  | M1 of op                     (* one-client machine *)
+  | M2 of op2                    (* two-client machine *)
 
-let add_out a (o : out) first =
+(* what a micro-step shows: the client it belongs to (two clients), the observation, idle *)
+type mout = { who : int; o : out; idle : bool }
+
+type machine = {
+  two : bool;
+  step : mop -> mout option;        (* None: the spec makes no claim *)
+  state : unit -> string;           (* the ' | ...' sections *)
+  rest : unit -> string;            (* what the peers have been sent and have not reported yet *)
+  cache_empty : unit -> bool;       (* two clients: no collected event is left *)
+}
+
+(* accumulated view of one op line *)
+type acc = { mutable ret : string; mutable num : string; mutable cbs : string list; mutable tx : z list array;
+             mutable sends : string list; mutable data : z list; mutable dead : bool; mutable unspec : bool }
+let new_acc () = { ret = "-"; num = "-"; cbs = []; tx = [| []; [] |]; sends = []; data = []; dead = false; unspec = false }
+
+let tag two who s = if two then (if who = 1 then "B." else "A.") ^ s else s
+
+let add_out two a (mo : mout) first =
+  let o = mo.o in
   (match o.o_ret with
    | Some b -> a.ret <- (if b then "1" else "0"); a.num <- dec_of_z o.o_num
    | None -> ());
-  a.cbs <- a.cbs @ List.map cb_name o.o_cbs;
-  a.tx <- a.tx @ o.o_tx;
-  a.sends <- a.sends @ List.map (fun (n, r) -> dec_of_z n ^ ">" ^ dec_of_z r) o.o_sends;
+  a.cbs <- a.cbs @ List.map (fun c -> tag two mo.who (cb_name c)) o.o_cbs;
+  a.tx.(mo.who) <- a.tx.(mo.who) @ o.o_tx;
+  a.sends <- a.sends @ List.map (fun (n, r) -> (if two then (if mo.who = 1 then "B:" else "A:") else "") ^ dec_of_z n ^ ">" ^ dec_of_z r) o.o_sends;
   a.data <- a.data @ o.o_data;
   (* "dead" = the operation found the client removed; a removal from inside one of its own
      callbacks does not make the operation itself dead *)
@@ -42,94 +62,207 @@ let add_out a (o : out) first =
 
 let lst l = if l = [] then "-" else String.concat "," l
 
-let print_acc name a m =
+let print_acc name a m nonum =
   if a.unspec then emit "??*"
   else
-    emit (Printf.sprintf "%s r=%s n=%s cb=%s tx=%s sends=%s data=%s%s%s" name a.ret a.num (lst a.cbs) (hex_of_bytes a.tx)
+    emit (Printf.sprintf "%s r=%s n=%s cb=%s tx=%s sends=%s data=%s%s%s" name a.ret (if nonum then "-" else a.num) (lst a.cbs)
+            (if m.two then hex_of_bytes a.tx.(0) ^ "/" ^ hex_of_bytes a.tx.(1) else hex_of_bytes a.tx.(0))
             (lst a.sends) (hex_of_bytes a.data) (if a.dead then " dead" else "") (m.state ()))
 
-let reactq : string list Queue.t array = Array.init 3 (fun _ -> Queue.create ())
+let reactq : string list Queue.t array array = Array.init 2 (fun _ -> Array.init 3 (fun _ -> Queue.create ()))
 
-let is_run name = name = "ev" || name = "poll" || name = "tick"
+let split_prefix s =
+  if String.length s > 2 && s.[1] = '.' && (s.[0] = 'A' || s.[0] = 'B') then
+    ((if s.[0] = 'B' then 1 else 0), String.sub s 2 (String.length s - 2))
+  else (0, s)
+
+let is_run name = name = "ev" || name = "evs" || name = "poll" || name = "tick"
+
+(* A:io,B:i -> the Collect operation: which client is reported first, the readiness of each *)
+let parse_events s =
+  let parts = if s = "-" then [] else String.split_on_char ',' s in
+  let evs = List.map (fun p -> ((if p.[0] = 'B' then 1 else 0), parse_mask (String.sub p 2 (String.length p - 2)))) parts in
+  let first = match evs with (1, _) :: _ -> true | _ -> false in
+  let find c = try Some (List.assoc c evs) with Not_found -> None in
+  Collect (first, find 0, find 1)
 
 let rec exec m (toks : string list) (nested : bool) : unit =
   match toks with
   | "react" :: cbn :: rest ->
+      let (ci, cbn) = split_prefix cbn in
       let w = if cbn = "onRead" then 0 else if cbn = "onWrite" then 1 else 2 in
-      if Queue.length reactq.(w) < 64 then Queue.add rest reactq.(w);
+      if Queue.length reactq.(ci).(w) < 64 then Queue.add rest reactq.(ci).(w);
       emit "react"
   | name :: args ->
+      let (idx, opn) = split_prefix name in
+      let c = (idx = 1) in
       let a = new_acc () in
       (* one micro-step; reactions run right after a delivered callback *)
       let nmicro = ref 0 in
-      let micro (x : op) : out option =
+      let micro (x : mop) : mout option =
         incr nmicro;
         match m.step x with
         | None -> a.unspec <- true; None
-        | Some o ->
-            add_out a o (!nmicro = 1);
-            List.iter (fun c ->
-                let w = cb_index c in
-                if not (Queue.is_empty reactq.(w)) then exec m (Queue.pop reactq.(w)) true) o.o_cbs;
-            Some o in
-      let rec sweep fuel =
+        | Some mo ->
+            add_out m.two a mo (!nmicro = 1);
+            List.iter (fun cb ->
+                let w = cb_index cb in
+                if not (Queue.is_empty reactq.(mo.who).(w)) then exec m (Queue.pop reactq.(mo.who).(w)) true) mo.o.o_cbs;
+            Some mo in
+      let on (x : op) = if m.two then M2 (On (c, x)) else M1 x in
+      (* ---- one client ---- *)
+      let rec sweep1 fuel =
         if fuel > 0 then
-          match micro CloseSweep with
-          | Some o when List.mem OnClosed o.o_cbs -> sweep (fuel - 1)
+          match micro (M1 CloseSweep) with
+          | Some mo when List.mem OnClosed mo.o.o_cbs -> sweep1 (fuel - 1)
           | _ -> () in
-      let run_with (ev : op option) =
-        sweep 1000;
-        (match ev with Some x -> ignore (micro x) | None -> ());
-        sweep 1000 in
-      if nested && is_run name then begin
+      let run1 (ev : op option) =
+        sweep1 1000;
+        (match ev with Some x -> ignore (micro (M1 x)) | None -> ());
+        sweep1 1000 in
+      (* ---- two clients ---- *)
+      let rec sweep2 fuel =
+        if fuel > 0 && not a.unspec then
+          match micro (M2 Sweep) with
+          | Some mo when not mo.idle -> sweep2 (fuel - 1)
+          | _ -> () in
+      let run2 (round : op2 option) (outcomes : outcome list) =
+        let q = ref outcomes in
+        let asked = ref false in
+        let rec loop fuel =
+          if fuel > 0 && not a.unspec then begin
+            sweep2 1000;
+            if a.unspec then ()
+            else begin
+              (* poll(): the kernel is asked only when no collected event is left *)
+              let go =
+                if m.cache_empty () then begin
+                  if !asked then false                                 (* the interrupt *)
+                  else begin
+                    asked := true;
+                    (match round with Some r -> ignore (micro (M2 r)) | None -> ());
+                    not a.unspec && not (m.cache_empty ())             (* nothing reported: the interrupt *)
+                  end
+                end else true in
+              if go then begin
+                let o = match !q with x :: _ -> x | [] -> Full in
+                match micro (M2 (Deliver o)) with
+                | Some mo ->
+                    if mo.o.o_sends <> [] then (match !q with _ :: t -> q := t | [] -> ());
+                    if mo.idle then ()                                 (* an event without flags: like a timeout; interrupted -> return *)
+                    else loop (fuel - 1)
+                | None -> ()
+              end
+            end
+          end in
+        loop 1000 in
+      let nonum = ref false in
+      if nested && is_run opn then begin
         (* run() is not re-entered from a callback: flagged and skipped on both sides *)
         a.dead <- true
       end else begin
-        match name, args with
-        | "write", [h; o] -> ignore (micro (Write (bytes_of_hex h, parse_outcome o)))
-        | "ev", [mk; o] -> run_with (Some (Dispatch (parse_mask mk, parse_outcome o)))
-        | "poll", [o] -> run_with (Some (PollReal (parse_outcome o)))
-        | "tick", [] -> run_with None
-        | "suspend", [] -> ignore (micro Suspend)
-        | "resume", [] -> ignore (micro Resume)
-        | "read", [n] -> ignore (micro (Read (z_of_int (int_of_string n))))
-        | "remove", [] -> ignore (micro Remove)
-        | "peerwrite", [h] -> ignore (micro (PeerWrite (bytes_of_hex h)))
-        | "peerread", [] -> ignore (micro PeerRead)
-        | "peerclose", [] -> ignore (micro PeerClose)
+        match opn, args with
+        | "write", [h; o] -> ignore (micro (on (Write (bytes_of_hex h, parse_outcome o))))
+        | "write0", [h; o] -> nonum := true; ignore (micro (on (Write (bytes_of_hex h, parse_outcome o))))
+        | "ev", [mk; o] ->
+            if m.two then run2 (Some (if c then Collect (true, None, Some (parse_mask mk)) else Collect (false, Some (parse_mask mk), None))) [parse_outcome o]
+            else run1 (Some (Dispatch (parse_mask mk, parse_outcome o)))
+        | "evs", evs :: os ->
+            if m.two then run2 (Some (parse_events evs)) (List.map parse_outcome os)
+            else failwith "evs needs a `two` case"
+        | "poll", [o] -> if m.two then failwith "poll: one-client cases only" else run1 (Some (PollReal (parse_outcome o)))
+        | "tick", os -> if m.two then run2 None (List.map parse_outcome os) else run1 None
+        | "suspend", [] -> ignore (micro (on Suspend))
+        | "resume", [] -> ignore (micro (on Resume))
+        | "read", [n] -> ignore (micro (on (Read (z_of_int (int_of_string n)))))
+        | "remove", [] -> ignore (micro (on Remove))
+        | "peerwrite", [h] -> ignore (micro (on (PeerWrite (bytes_of_hex h))))
+        | "peerread", [] -> ignore (micro (on PeerRead))
+        | "peerclose", [] -> ignore (micro (on PeerClose))
         | _ -> failwith ("bad op: " ^ String.concat " " toks)
       end;
-      print_acc name a m
+      print_acc name a m !nonum
   | [] -> ()
 
+let mask_string (s : st) =
+  if not s.registered then "-"
+  else if not s.int_r && not s.int_w then "0"
+  else (if s.int_r then "r" else "") ^ (if s.int_w then "w" else "") ^ "d"
+
+let who_of (c : bool option) = match c with Some true -> 1 | _ -> 0
+
+(* ---- one client ---- *)
 let model_machine () : machine =
   let st = ref init in
-  { step = (fun x -> let (s', o) = step !st x in st := s'; Some o);
+  { two = false;
+    step = (fun x -> match x with
+        | M1 x -> let (s', o) = step !st x in st := s'; Some { who = 0; o = o; idle = false }
+        | M2 _ -> failwith "two-client operation in a one-client case");
     state = (fun () ->
         let s = !st in
         if s.removed then " | sb=- susp=- | k=-"
-        else Printf.sprintf " | sb=%s susp=%d | k=%s" (dec_of_z (getSendBufferSize s)) (if isSuspended s then 1 else 0)
-            (if not s.registered then "-"
-             else if not s.int_r && not s.int_w then "0"
-             else (if s.int_r then "r" else "") ^ (if s.int_w then "w" else "")));
-    rest = (fun () -> let s = !st in Some (if s.peer_closed then [] else s.wire)) }
+        else Printf.sprintf " | sb=%s susp=%d | k=%s" (dec_of_z (getSendBufferSize s)) (if isSuspended s then 1 else 0) (mask_string s));
+    rest = (fun () -> let s = !st in hex_of_bytes (if s.peer_closed then [] else s.wire));
+    cache_empty = (fun () -> true) }
 
 let spec_machine () : machine =
   let st = ref spec_init in
   let lost = ref false in     (* some operation was outside the spec's claims: its bookkeeping of the wire is void *)
-  { step = (fun x -> let (t', o) = spec_step !st x in st := t'; (if o = None then lost := true); o);
+  { two = false;
+    step = (fun x -> match x with
+        | M1 x -> let (t', o) = spec_step !st x in st := t'; (if o = None then lost := true);
+            (match o with Some o -> Some { who = 0; o = o; idle = false } | None -> None)
+        | M2 _ -> failwith "two-client operation in a one-client case");
     state = (fun () ->
         let t = !st in
         if t.s_dead then " | sb=- susp=-"
         else Printf.sprintf " | sb=%s susp=%d" (dec_of_z (zlen t.q)) (if t.s_susp then 1 else 0));
     rest = (fun () -> let t = !st in
-             if !lost then None else Some (if t.s_peer_closed then [] else t.s_wire)) }
+             if !lost then "?" else hex_of_bytes (if t.s_peer_closed then [] else t.s_wire));
+    cache_empty = (fun () -> true) }
+
+(* ---- two clients ---- *)
+let pair f a b = f a ^ "/" ^ f b
+
+let model_machine2 () : machine =
+  let st = ref init2 in
+  { two = true;
+    step = (fun x -> match x with
+        | M2 x -> let (m', r) = step2 !st x in st := m'; Some { who = who_of r.o2_c; o = r.o2_out; idle = r.o2_idle }
+        | M1 _ -> failwith "one-client operation in a `two` case");
+    state = (fun () ->
+        let m = !st in
+        Printf.sprintf " | sb=%s susp=%s | k=%s"
+          (pair (fun (s : st) -> if s.removed then "-" else dec_of_z (getSendBufferSize s)) m.cl0 m.cl1)
+          (pair (fun (s : st) -> if s.removed then "-" else if isSuspended s then "1" else "0") m.cl0 m.cl1)
+          (pair (fun (s : st) -> if s.removed then "-" else mask_string s) m.cl0 m.cl1));
+    rest = (fun () -> let m = !st in pair (fun (s : st) -> hex_of_bytes (if s.peer_closed then [] else s.wire)) m.cl0 m.cl1);
+    cache_empty = (fun () -> !st.sel = []) }
+
+let spec_machine2 () : machine =
+  let st = ref spec_init2 in
+  let lost = ref false in
+  { two = true;
+    step = (fun x -> match x with
+        | M2 x -> let (u', r) = spec_step2 !st x in st := u'; (if r = None then lost := true);
+            (match r with Some r -> Some { who = who_of r.o2_c; o = r.o2_out; idle = r.o2_idle } | None -> None)
+        | M1 _ -> failwith "one-client operation in a `two` case");
+    state = (fun () ->
+        let u = !st in
+        Printf.sprintf " | sb=%s susp=%s"
+          (pair (fun (t : sst) -> if t.s_dead then "-" else dec_of_z (zlen t.q)) u.t0 u.t1)
+          (pair (fun (t : sst) -> if t.s_dead then "-" else if t.s_susp then "1" else "0") u.t0 u.t1));
+    rest = (fun () -> let u = !st in
+             if !lost then "?" else pair (fun (t : sst) -> hex_of_bytes (if t.s_peer_closed then [] else t.s_wire)) u.t0 u.t1);
+    cache_empty = (fun () -> !st.pend = []) }
 
 let () =
   let mode = Sys.argv.(1) and file = Sys.argv.(2) in
   run_cases file
-    (fun _ -> Array.iter Queue.clear reactq; if mode = "model" then model_machine () else spec_machine ())
+    (fun cfg ->
+       Array.iter (Array.iter Queue.clear) reactq;
+       let two = List.mem "two" cfg in
+       if mode = "model" then (if two then model_machine2 () else model_machine ())
+       else (if two then spec_machine2 () else spec_machine ()))
     (fun m _ toks -> exec m toks false; m)
-    (fun m -> match m.rest () with
-       | Some l -> emit ("end data=" ^ hex_of_bytes l)
-       | None -> emit "end ?")
+    (fun m -> let r = m.rest () in if r = "?" then emit "end ?" else emit ("end data=" ^ r))
